@@ -85,6 +85,9 @@ class FsSeam:
         self.enabled = True
         self.track_reads = False
         self._mk = 0
+        # transient faults of read-side calls (stat, lstat): [{"kind": "stat", "nth": 0, "errno": "EIO"}], one-shot each
+        self.read_faults: list[dict] = []
+        self.read_kind_counts: dict[str, int] = {}
 
     # ------------------------------------------------------------------ utils
     def rel(self, path) -> str:
@@ -143,6 +146,18 @@ class FsSeam:
         if not self.enabled:
             return
         self.reads.append((kind, self.rel(path), extra))
+
+    def read_fault(self, kind: str, path) -> None:
+        """Raise the planned transient OSError for the nth read-side call of this kind, if any."""
+        if not self.enabled or not self.read_faults:
+            return
+        nth = self.read_kind_counts.get(kind, 0)
+        self.read_kind_counts[kind] = nth + 1
+        for f in self.read_faults:
+            if not f.get("done") and f["kind"] == kind and f.get("nth", 0) == nth:
+                f["done"] = True
+                self.fired.append({"k": -1, "kind": kind, "nth": nth, "errno": f.get("errno", "EIO"), "mode": "raise"})
+                raise FsSeam.oserror(f.get("errno", "EIO"), path)
 
     @staticmethod
     def oserror(name: str, path=None) -> OSError:
@@ -372,10 +387,12 @@ class OsProxy:
 
     def stat(self, p, **kw):
         self._seam.read_event("stat", p)
+        self._seam.read_fault("stat", p)
         return _real_os.stat(p, **kw)
 
     def lstat(self, p, **kw):
         self._seam.read_event("lstat", p)
+        self._seam.read_fault("lstat", p)
         return _real_os.lstat(p, **kw)
 
     def _copy_file_range(self, src, dst, count, offset_src=None, offset_dst=None):
